@@ -680,7 +680,7 @@ func stallSummary(dump string) string {
 }
 
 func checkC13(r *verdict.Run) {
-	r.Rule = "each hostile input (raw byte string, generated command, random MULTI..EXEC sequence, and every command token of the SUT in four minimal argument shapes queued alone inside MULTI..EXEC) is sent on its own connection to a live emulator after a fixed key setup; " +
+	r.Rule = "each hostile input (raw byte string, generated command, random MULTI..EXEC sequence, and every command token of the SUT in four minimal argument shapes queued alone inside MULTI..EXEC) is sent on its own connection; plus connection churn (24 goroutines connect, send a fragment or nothing and close or reset, against one emulator, while a steady client sends PING) to a live emulator after a fixed key setup; " +
 		"monitors: process exit status, canary SET/GET on another connection (3 s watchdog), strict framing of replies, exactly one reply per well-formed command (sentinel ECHO). " +
 		"distinct = (input kind, command or mutation label, outcome class)"
 	// discover the command list from the SUT
@@ -718,7 +718,94 @@ func checkC13(r *verdict.Run) {
 		}(sh)
 	}
 	wg.Wait()
+	c13Churn(r, tierPick(r, 4, 12))
 	r.Assume("the canary's 3 s watchdog and the 4 s reply watchdog are generous; the child's address space is limited to 12 GiB so that a client-controlled allocation shows up as a crash of the child instead of exhausting the machine enough that a loaded machine does not look like a stall (a stall verdict additionally requires the process to be alive and is accompanied by a goroutine dump)")
+}
+
+// c13Churn: many short-lived connections against ONE emulator at the same time - connect, send a fragment of
+// input (or nothing), and leave by close or reset - while a steady client keeps asking PING. Connection set-up and
+// tear-down run concurrently with each other and with command processing; the process must survive and the steady
+// client must always be answered.
+func c13Churn(r *verdict.Run, runs int) {
+	fragments := [][]byte{nil, []byte("PING\r\n"), []byte("*1\r\n$4\r\nPING\r\n"), []byte("*2\r\n$3\r\nGET\r\n$1"), []byte("\r\n"), []byte("*1\r\n$4\r\nQUIT\r\n"),
+		[]byte("*3\r\n$6\r\nCLIENT\r\n$4\r\nKILL\r\n$9\r\n127.0.0.1\r\n"), []byte("*2\r\n$6\r\nCLIENT\r\n$4\r\nLIST\r\n"), []byte("*1\r\n$5\r\nMULTI\r\n"), []byte("*3\r\n$5\r\nBLPOP\r\n$2\r\ncq\r\n$1\r\n0\r\n"),
+		[]byte("*2\r\n$5\r\nHELLO\r\n$1\r\n3\r\n"), []byte("\x00\xff garbage")}
+	parallel(runs, 4, func(run int) {
+		c, err := startChildLimited(false, 12<<20)
+		if err != nil {
+			r.Inconclusive("cannot start child")
+			return
+		}
+		defer c.Stop()
+		e, err := startEmu(c, "")
+		if err != nil {
+			r.Inconclusive("infra: " + err.Error())
+			return
+		}
+		var stop atomic.Bool
+		var conns, pongs atomic.Int64
+		var wg sync.WaitGroup
+		for g := 0; g < 24; g++ {
+			wg.Add(1)
+			go func(g int) {
+				defer wg.Done()
+				rng := shardRng(r, 4000+run*100+g)
+				for !stop.Load() {
+					cn, err := wire.Dial(e.port)
+					if err != nil {
+						time.Sleep(time.Millisecond)
+						continue
+					}
+					conns.Add(1)
+					if f := fragments[rng.Intn(len(fragments))]; f != nil {
+						cn.Send(f)
+					}
+					switch rng.Intn(4) {
+					case 0:
+						cn.CloseRST()
+					case 1:
+						time.Sleep(time.Duration(rng.Intn(300)) * time.Microsecond)
+						cn.Close()
+					default:
+						cn.Close()
+					}
+				}
+			}(g)
+		}
+		steady, err := e.dial()
+		failure := ""
+		if err == nil {
+			steady.Timeout = 5 * time.Second
+			dur := 1500 * time.Millisecond
+			if r.Tier == "thorough" {
+				dur = 6 * time.Second
+			}
+			for t := time.Now(); time.Since(t) < dur; {
+				v, err := steady.Do("PING")
+				if err != nil || v.Text() != "PONG" {
+					failure = fmt.Sprintf("the steady client's PING got %s %v", v, err)
+					break
+				}
+				pongs.Add(1)
+			}
+			steady.Close()
+		}
+		stop.Store(true)
+		wg.Wait()
+		r.Eval(int(conns.Load()))
+		r.Count("churn_connections", conns.Load())
+		r.Count("churn_steady_pings_answered", pongs.Load())
+		if !c.Alive() {
+			tail := c.StderrHead(6000)
+			sig, msg := host.CrashSignature(tail)
+			r.Report("c13/crash/"+sig+"/connection-churn", fmt.Sprintf("the emulator process died during connection churn (%d short connections so far): %s\n%s", conns.Load(), msg, headLines(tail, 25)), map[string]any{"workload": "24 goroutines connect, send a fragment or nothing, close or reset; one steady client sends PING"})
+			return
+		}
+		if failure != "" {
+			r.Report("c13/unanswered/connection-churn", failure+" while 24 goroutines connected and disconnected", nil)
+		}
+		r.Distinct(fmt.Sprintf("churn/run%d", run%4))
+	})
 }
 
 var c13FallbackNames = []string{"get", "set", "del", "lpush", "lpop", "hset", "sadd", "ping", "echo"}
